@@ -21,9 +21,12 @@ from hed.validator.onset_validator import OnsetValidator
 from hed.errors.error_types import TemporalErrors
 
 chx.install()
-# the two messages that print a LIST of tags: repr() of a symbolic name realises it (see vp/msgstub.py)
+# message TEXT of the three issues that print tag objects / lists of tags is stubbed: formatting a tag whose name
+# is symbolic realises the name (str(list) -> repr(); f"{tag_object}" -> format() needs a real str); the
+# wrappers that set the published code stay real (see vp/msgstub.py)
 msgstub.mute(TemporalErrors.ONSET_WRONG_NUMBER_GROUPS)
 msgstub.mute(TemporalErrors.ONSET_TOO_MANY_DEFS)
+msgstub.mute(TemporalErrors.ONSET_TAG_OUTSIDE_OF_GROUP)
 
 _TTE = "TEMPORAL_TAG_ERROR"
 
@@ -259,11 +262,11 @@ _STUBS = ["stub tags exposing only `extension` / `short_base_tag` (and a constan
 
 HARNESSES = [
     R.H("onset_step", _T_STEP,
-        quick=R.tier(cells=R.int_cells("VP_KIND", 0, 2), env={"VP_N": 1, "VP_MINLEN": 1}, timeout=120,
+        quick=R.tier(cells=R.int_cells("VP_KIND", 0, 2), env={"VP_N": 2}, timeout=200,
                      bound="pre-state: 2 other names (each open or not), marker of any kind; all three names "
-                           "exactly 1 printable-ASCII character"),
-        thorough=R.tier(cells=R.int_cells("VP_KIND", 0, 2), env={"VP_N": 2}, timeout=1100, path_timeout=60,
-                        bound="as quick with names of 0..2 printable-ASCII characters"),
+                           "any printable-ASCII text of 0..2 characters"),
+        thorough=R.tier(cells=R.int_cells("VP_KIND", 0, 2), env={"VP_N": 4}, timeout=1100, path_timeout=60,
+                        bound="as quick with names of 0..4 printable-ASCII characters (covers a/1, ab/1, a/12)"),
         what="one marker from an arbitrary open-scope state: unmatched (exactly one TEMPORAL_TAG_ERROR on the Def "
              "tag) iff the name is not open case-insensitively; Onset opens/restarts, Offset closes, Inset keeps; "
              "all other scopes unchanged; keys stay case-folded",
@@ -273,12 +276,13 @@ HARNESSES = [
                 "the effect on any one other key is what is asserted)"),
     R.H("onset_time_point", _T_TP,
         quick=R.tier(cells=_TP_CELLS,
-                     env={"VP_N": 1, "VP_MINLEN": 1}, timeout=120,
+                     env={"VP_N": 2}, timeout=300,
                      bound="one time point with 0..2 temporal groups (each with or without a Def tag), any kinds, "
-                           "from a state with one other name open or not; names exactly 1 printable-ASCII char"),
+                           "from a state with one other name open or not; names any printable-ASCII text of "
+                           "0..2 characters"),
         thorough=R.tier(cells=_TP_CELLS,
-                        env={"VP_N": 2}, timeout=1100, path_timeout=60,
-                        bound="as quick with names of 0..2 printable-ASCII characters"),
+                        env={"VP_N": 4}, timeout=1100, path_timeout=60,
+                        bound="as quick with names of 0..4 printable-ASCII characters"),
         what="markers of one time point act in order like single steps; a name already used in the time point "
              "gives one TEMPORAL_TAG_ERROR per extra use and no state change; groups without a Def are skipped; "
              "number of issues == unmatched + repeated; post-state == reference",
